@@ -26,6 +26,9 @@ every finite history of public mutating operations on any number of instances ob
   false for the code as it is; the harness replays that witness on the real code (KNOWN-FINDING).
 * `C07_dataclass_*`                          the same for the attribute-based `DataClass`.
 * `C07_accessor_own`, `C07_dataclass_setattr_inherited`, `C07_dataclass_delattr_inherited`,
+  `C07_nested_instance_options`, `C07_nested_reachable`, `C07_nested_keeps_immutable`   an instance built as the value of a
+  field of another data class carries its own class options unless the enclosing ones `override` (and its own do not);
+  every history on it keeps `Valid` judged by its own declaration with the options it carries.
   `C07_schema_setattr_inherited`             inheritance: the attribute of a field (declared, narrowed or inherited) reaches the
   accessor bound to the instance's own class — own field declaration, own options — whatever the bases carry.
 * `C07_legacy_*_witness`                     the behaviour before `fixes/C07-mutators.patch` (model flag `lg = true`)
@@ -602,6 +605,44 @@ theorem C07_schema_setattr_inherited (hwf : WF C) (bases : List (List Accessor))
   unfold setattrVia setattr
   rw [C07_accessor_own hwf bases hf hp, hfa]
   simp [hp]
+
+/-! ### nested instances: which options govern them -/
+
+theorem wf_instanceCls (hwf : WF C) (enc : Option Opts) : WF (instanceCls C enc) :=
+  ⟨hwf.nameMem, hwf.attMem, hwf.disjoint, hwf.propPlain, hwf.depsPlain, hwf.depsListed, hwf.depNames⟩
+
+/-- **C07 (nested instances, options).**  An instance obtained as the value of a field of another data class
+is governed by its *own* class options, exactly like a directly constructed one, unless the enclosing options
+declare `override` and its own do not; only then the enclosing immutable / ignore_required /
+ignore_delete_nonexistent apply (additions always follow the own class). -/
+theorem C07_nested_instance_options (own : Opts) (enc : Option Opts) :
+    (enc = none → instanceOpts own enc = own) ∧
+    (∀ c, enc = some c → (c.override = false ∨ own.override = true) → instanceOpts own enc = own) ∧
+    (∀ c, enc = some c → c.override = true → own.override = false →
+      instanceOpts own enc = { c with addition := own.addition }) := by
+  refine ⟨?_, ?_, ?_⟩
+  · intro h; subst h; rfl
+  · intro c h hc
+    subst h
+    cases own
+    rcases hc with hc | hc <;> simp_all [instanceOpts, contextOptions]
+  · intro c h h1 h2
+    subst h
+    simp [instanceOpts, contextOptions, h1, h2]
+
+/-- **C07 (nested instances, every history).**  Wherever the instance came from, after every finite history
+every instance is valid with respect to its own class's field declarations and the options it carries. -/
+theorem C07_nested_reachable (hwf : WF C) (hl : Laws W conf addOk) (enc : Option Opts) (s0 : State V)
+    (h0 : Valid (instanceCls C enc) conf addOk s0) (ops : List (HOp V)) :
+    ∀ s ∈ hrun false (instanceCls C enc) W [postInit (instanceCls C enc) W s0] ops,
+      Valid (instanceCls C enc) conf addOk s :=
+  C07_reachable (wf_instanceCls hwf enc) hl s0 h0 ops
+
+/-- an immutable class stays immutable when nested in a mutable one that does not override -/
+theorem C07_nested_keeps_immutable (own c : Opts) (hi : own.immutable = true) (hc : c.override = false) :
+    (instanceOpts own (some c)).immutable = true := by
+  rw [(C07_nested_instance_options own (some c)).2.1 c rfl (Or.inl hc)]
+  exact hi
 
 end Utv.C07
 
